@@ -41,10 +41,7 @@ pub fn main(args: &Args) {
         while k < napps || only == Some(k) {
             let mut rng = Rng::derive(seed, 0x0400_0000 + k);
             let m: AppModel = routelab::gen_app(&mut rng);
-            let port = {
-                let l = TcpListener::bind("127.0.0.1:0").unwrap();
-                l.local_addr().unwrap().port()
-            };
+            let port = hvcommon::net::free_port("127.0.0.1");
             let addr: SocketAddr = format!("127.0.0.1:{}", port).parse().unwrap();
             let (tx, rx) = channel();
             let mut app: App<()> = App::new_with_config(2, ()).with_default_subapp(build_sub(&m.default, None)).with_shutdown(rx);
